@@ -221,6 +221,7 @@ class MinPathCoverCycles(walkmodel.AbstractWalkModelDiGraph):
 
         if self._lowerbound_k is None:
             stG = stdigraph.stDiGraph(self.G)
-            self._lowerbound_k = stG.get_width(edges_to_ignore=self.edges_to_ignore)
+            # The synthetic source/sink edges need not be covered by the walks
+            self._lowerbound_k = stG.get_width(edges_to_ignore=list(self.edges_to_ignore) + list(stG.source_sink_edges))
 
         return self._lowerbound_k
